@@ -80,6 +80,20 @@ def handlers_agree(ctx, text, clazz, xctx, info, expect=None, tags_native_tree=(
                 tags = list(tags_native_tree) if (h == "native" and src in ("tree", "element")) else []
                 ctx.violation(f"handler {h} from a {src} source gives {repr(cur[1])[:300]}; native from str gives {repr(ref[1])[:300]}",
                               {**info, "text": text[:1500], "handler": h, "source": src, "finding_tags": tags})
+    # the same again through ONE parser object per handler, reused for every kind of source in turn (a parser is
+    # made once and fed many documents; whatever it keeps between calls must not leak into the next result)
+    from xsdata.formats.dataclass.parsers import XmlParser
+
+    for h in ("native", "lxml"):
+        shared = XmlParser(context=xctx, handler=hb.HANDLERS[h], config=ParserConfig())
+        for src in hb.SOURCES:
+            st, obj, nwarn = hb.parse(text, h, xctx, clazz, src, ParserConfig(), parser=shared)
+            ctx.case(("src-reused-parser", info.get("key"), h, src))
+            cur = (st, obj if st == "ok" else type(obj).__name__)
+            if cur != ref:
+                tags = list(tags_native_tree) if (h == "native" and src in ("tree", "element")) else []
+                ctx.violation(f"handler {h} from a {src} source through a REUSED parser gives {repr(cur[1])[:300]}; native from str gives {repr(ref[1])[:300]}",
+                              {**info, "text": text[:1500], "handler": h, "source": src, "finding_tags": tags})
     return ref
 
 
@@ -103,7 +117,17 @@ def run(ctx):
         c09.check_scoping(ctx, c, want_agree=True)
         for prefix in ("p", ""):
             text = hb.scoping_doc(c["levels"], prefix)
-            handlers_agree(ctx, text, hb.HRoot, XmlContext(), {"key": text, "levels": c["levels"]}, tags_native_tree=["F14"])
+            # F14 is about values that NEED a declaration xml.etree has dropped; an unprefixed value with no default
+            # namespace in scope needs none, so the tree / element sources must get it right
+            needs_decl = c["scope"][prefix] != ""
+            handlers_agree(ctx, text, hb.HRoot, XmlContext(), {"key": text, "levels": c["levels"]}, tags_native_tree=["F14"] if needs_decl else [])
+    # documents spelled with a DEFAULT namespace whose unqualified children switch it off: values that need no
+    # declaration at all, so every source kind (tree and element included) has to agree, also through a reused parser
+    for text, exp in hb.default_ns_docs():
+        # (<own>z</own> is a qualified element: its value takes the default namespace, which xml.etree drops - F14)
+        ref = handlers_agree(ctx, text, hb.DRoot, XmlContext(), {"key": text}, tags_native_tree=["F14"] if exp.own is not None else [])
+        if ref is not None and ref[1] != exp:
+            ctx.violation(f"default-namespace document parses to {ref[1]!r}, expected {exp!r}", {"text": text})
     ctx.exhaustive = True
     # writer behaviours on both real writers
     res = ctx.tlc("MC_Writer", "run.cfg", workers=1, extra_files={"run.cfg": writer_cfg("gen", depth=2, events=5, attrs=1)},
